@@ -15,6 +15,13 @@ pub struct PObs {
     /// child paths as returned (order of the listing)
     pub list: R<Vec<String>>,
     pub content: R<Vec<u8>>,
+    /// which of created / modified / accessed equal the fixed instant `Op::SetTime` writes
+    /// (not part of the canonical key; compared separately where the alphabet has the setters)
+    pub tflags: Option<[bool; 3]>,
+}
+
+pub fn set_time_instant() -> std::time::SystemTime {
+    std::time::SystemTime::UNIX_EPOCH + std::time::Duration::from_secs(1_234_567)
 }
 
 #[derive(Clone, Debug, PartialEq, Eq)]
@@ -35,15 +42,29 @@ fn observe_path<P: PathApi>(root: &P, p: &str) -> PObs {
             is_dir: Err(e.clone()),
             list: Err(e.clone()),
             content: Err(e),
+            tflags: None,
         },
-        Ok(x) => PObs {
-            exists: x.exists(),
-            meta: x.metadata().map(|m| (m.ftype, m.len)),
-            is_file: x.is_file(),
-            is_dir: x.is_dir(),
-            list: x.read_dir().map(|v| v.iter().map(|c| c.as_string()).collect()),
-            content: x.read_all(),
-        },
+        Ok(x) => {
+            let md = x.metadata();
+            let t = set_time_instant();
+            PObs {
+                exists: x.exists(),
+                tflags: md.as_ref().ok().map(|m| {
+                    [
+                        m.created == Some(t),
+                        m.modified == Some(t),
+                        m.accessed == Some(t),
+                    ]
+                }),
+                meta: md.map(|m| (m.ftype, m.len)),
+                is_file: x.is_file(),
+                is_dir: x.is_dir(),
+                list: x
+                    .read_dir()
+                    .map(|v| v.iter().map(|c| c.as_string()).collect()),
+                content: x.read_all(),
+            }
+        }
     }
 }
 
@@ -115,7 +136,11 @@ impl Snap {
         for (p, o) in &self.entries {
             // absent paths contribute nothing but their error classes; skip fully-absent ones to
             // keep keys independent of which absent probes were asked for
-            if matches!(o.exists, Ok(false)) && o.meta.is_err() && o.list.is_err() && o.content.is_err() {
+            if matches!(o.exists, Ok(false))
+                && o.meta.is_err()
+                && o.list.is_err()
+                && o.content.is_err()
+            {
                 continue;
             }
             out.extend_from_slice(p.as_bytes());
@@ -195,7 +220,9 @@ impl Snap {
             }
             match &o.meta {
                 Ok((FType::Dir, _)) => Some((p.clone(), Node::Dir)),
-                Ok((FType::File, _)) => Some((p.clone(), Node::File(o.content.clone().unwrap_or_default()))),
+                Ok((FType::File, _)) => {
+                    Some((p.clone(), Node::File(o.content.clone().unwrap_or_default())))
+                }
                 Err(_) => None,
             }
         }))
@@ -209,6 +236,14 @@ impl Snap {
         self.key_bytes(&mut a);
         other.key_bytes(&mut b);
         a == b && self.walk_set() == other.walk_set()
+    }
+
+    /// (path, flags) for every existing entry: which timestamps carry the instant of `Op::SetTime`.
+    pub fn time_flags(&self) -> Vec<(String, [bool; 3])> {
+        self.entries
+            .iter()
+            .filter_map(|(p, o)| o.tflags.map(|f| (p.clone(), f)))
+            .collect()
     }
 
     pub fn walk_set(&self) -> Option<Vec<String>> {
@@ -249,7 +284,11 @@ impl Snap {
                     l.sort();
                     format!("{:?}", l)
                 })),
-                show(&o.content.clone().map(|b| format!("{:?}", String::from_utf8_lossy(&b)))),
+                show(
+                    &o.content
+                        .clone()
+                        .map(|b| format!("{:?}", String::from_utf8_lossy(&b)))
+                ),
             ));
         }
         if let Some(p) = &self.panic {
@@ -280,25 +319,49 @@ pub fn diff_model(snap: &Snap, model: &Model, paths: &[String]) -> Vec<String> {
             Some(o) => o,
             None => {
                 if model.exists(p) {
-                    d.push(format!("{:?}: in the model ({:?}) but never observed", p, model.get(p)));
+                    d.push(format!(
+                        "{:?}: in the model ({:?}) but never observed",
+                        p,
+                        model.get(p)
+                    ));
                 }
                 continue;
             }
         };
         let want_exists = model.exists(p);
         if o.exists != Ok(want_exists) {
-            d.push(format!("{:?}: exists() = {:?}, model says {}", p, o.exists.as_ref().map_err(|e| e.kind), want_exists));
+            d.push(format!(
+                "{:?}: exists() = {:?}, model says {}",
+                p,
+                o.exists.as_ref().map_err(|e| e.kind),
+                want_exists
+            ));
         }
         match (model.obs_meta(p), &o.meta) {
             (Some(w), Ok(g)) if w == *g => {}
             (None, Err(_)) => {}
-            (w, g) => d.push(format!("{:?}: metadata() = {:?}, model says {:?}", p, g.as_ref().map_err(|e| e.kind), w)),
+            (w, g) => d.push(format!(
+                "{:?}: metadata() = {:?}, model says {:?}",
+                p,
+                g.as_ref().map_err(|e| e.kind),
+                w
+            )),
         }
         if o.is_file != Ok(model.is_file(p)) {
-            d.push(format!("{:?}: is_file() = {:?}, model says {}", p, o.is_file.as_ref().map_err(|e| e.kind), model.is_file(p)));
+            d.push(format!(
+                "{:?}: is_file() = {:?}, model says {}",
+                p,
+                o.is_file.as_ref().map_err(|e| e.kind),
+                model.is_file(p)
+            ));
         }
         if o.is_dir != Ok(model.is_dir(p)) {
-            d.push(format!("{:?}: is_dir() = {:?}, model says {}", p, o.is_dir.as_ref().map_err(|e| e.kind), model.is_dir(p)));
+            d.push(format!(
+                "{:?}: is_dir() = {:?}, model says {}",
+                p,
+                o.is_dir.as_ref().map_err(|e| e.kind),
+                model.is_dir(p)
+            ));
         }
         match (model.is_dir(p), &o.list) {
             (true, Ok(l)) => {
@@ -328,8 +391,15 @@ pub fn diff_model(snap: &Snap, model: &Model, paths: &[String]) -> Vec<String> {
                     ));
                 }
             }
-            (Some(Node::File(_)), Err(e)) => d.push(format!("{:?}: open+read failed ({}), model says file", p, e.kind.name())),
-            (_, Ok(_)) => d.push(format!("{:?}: open+read succeeded, model says not a file", p)),
+            (Some(Node::File(_)), Err(e)) => d.push(format!(
+                "{:?}: open+read failed ({}), model says file",
+                p,
+                e.kind.name()
+            )),
+            (_, Ok(_)) => d.push(format!(
+                "{:?}: open+read succeeded, model says not a file",
+                p
+            )),
             (_, Err(_)) => {}
         }
     }
